@@ -36,4 +36,40 @@ static void el_setup(void) {
 	g_el_list.length = el_stub_length; g_el_list.elementAt = el_stub_elementAt;
 	g_el_len = nondet_size(); g_el_calls = 0; g_el_sum = 0; g_el_w = nondet_size();
 }
+
+/* ---------------- (B) building side: convertToNested ---------------- */
+KSI_LIST(KSI_TlvElement) g_eb_list;
+_Bool g_eb_live, g_eb_freed;
+size_t g_eb_count;
+unsigned char *g_eb_base; size_t g_eb_len;     /* the parent's payload [base, base+len) - set by the harness */
+size_t g_eb_off;                               /* octets of it covered by the children appended so far */
+KSI_TlvElement *g_eb_rejected;                 /* child whose append failed (still owned by the caller) */
+
+static int eb_stub_append(KSI_LIST(KSI_TlvElement) *l, KSI_TlvElement *child) {
+	__CPROVER_assert(l == &g_eb_list && g_eb_live && !g_eb_freed, "list protocol: append to the live list");
+	__CPROVER_assert(child != NULL, "list protocol: a child is appended");
+	/* tiling, checked when a child is handed over: it starts exactly where its predecessor ended and ends inside the parent's payload */
+	__CPROVER_assert(child->ptr == g_eb_base + g_eb_off, "child starts where the previous child ended");
+	__CPROVER_assert((child->ftlv.hdr_len == 2 || child->ftlv.hdr_len == 4) && child->ftlv.dat_len <= SPEC_TLV_MAX_LEN, "child header is 2 or 4 octets, payload <= 0xffff");
+	__CPROVER_assert(child->ftlv.hdr_len + child->ftlv.dat_len <= g_eb_len - g_eb_off, "child ends inside the parent's payload");
+	__CPROVER_assert(child->ptr_own == 0 && child->subList == NULL && child->ref == 1, "child borrows the parent's memory, is not expanded, has one owner");
+	if (nondet_bool()) { g_eb_rejected = child; return KSI_OUT_OF_MEMORY; }
+	g_eb_off += child->ftlv.hdr_len + child->ftlv.dat_len;
+	g_eb_count++;
+	return KSI_OK;
+}
+int KSI_List_new(void (*obj_free)(void *), KSI_List **list) {
+	__CPROVER_assert(!g_eb_live, "list protocol: one list per call");
+	if (nondet_bool()) return KSI_OUT_OF_MEMORY;
+	memset(&g_eb_list, 0, sizeof(g_eb_list));
+	g_eb_list.append = eb_stub_append;
+	g_eb_live = 1; g_eb_count = 0; g_eb_off = 0;
+	*list = (KSI_List *)&g_eb_list;
+	return KSI_OK;
+}
+void KSI_List_free(KSI_List *list) {
+	if (list == NULL) return;
+	__CPROVER_assert(list == (KSI_List *)&g_eb_list && g_eb_live && !g_eb_freed, "list protocol: the live list is released at most once");
+	g_eb_freed = 1;
+}
 #endif
